@@ -58,6 +58,15 @@ def run(ctx):
                         ctx.sample({"mode": mode, "trace_head": [json.loads(x) for x in f.read().splitlines()[:10]]})
                 os.remove(out)
     ctx.cov["traces_validated_against_impl"] = validated
+    # RwGuard.tla has a value of W words; the implementation moves BYTES: every size class and alignment
+    # (1 .. 4100 bytes; sizes that are not a multiple of the word size) must be replaced whole
+    rep = worlds.parse_report(vlib.run_bin("amv", ["c07-pods"], timeout=600))
+    ctx.cov["value_size_classes"] = rep["cases"]
+    for c in range(rep["cases"]):
+        ctx.case(dict(pods=c))
+    for m in rep["mismatches"]:
+        ctx.violation(f"C07/mixture:{m.get('element_type')}x{m.get('elements')}", f"{m.get('what')} ({m.get('bytes')} bytes, alignment {m.get('align')}, "
+                      f"first wrong element {m.get('first_wrong_element')})", {"mismatch": m})
     demo = os.path.join(vlib.WORK, f"c07-demo-{os.getpid()}.ndjson")
     evs = [{"ev": "Notified"}, {"ev": "GuardAcq", "th": "r1", "rid": 0, "val": 0}, {"ev": "Begin"}, {"ev": "Write", "rid": 1},
            {"ev": "GuardRel", "th": "r1", "rid": 1, "val": 0, "uniform": True}, {"ev": "End"}]
